@@ -98,6 +98,9 @@ def define(fs, modname, src):
     path = "%s/%s.py" % (SRC_DIR, modname)
     fs.dirs.add(SRC_DIR)
     fs.files[path] = src.encode("utf-8")
-    ns = {"__name__": modname, "__file__": path}
-    exec(compile(src, path, "exec"), ns)
-    return ns
+    import sys
+    mod = types.ModuleType(modname)
+    mod.__file__ = path
+    sys.modules[modname] = mod          # classes defined there must be picklable by reference
+    exec(compile(src, path, "exec"), mod.__dict__)
+    return mod.__dict__
